@@ -7,7 +7,7 @@
 //	psearch run [-E e -B b] [-explain]                                     <- hex inputs on stdin
 //
 // run prints per input:  <status>\t<tokens>\t<steps>\t<detail>[\t<hex explain>]
-// status: ok (err == nil, all C03 clauses hold) | err | PANIC | BUDGET | C03
+// status: ok (err == nil, all C03 clauses hold) | err | PANIC | BUDGET (proved bound exceeded) | SLOW (empirical bound exceeded) | C03
 package main
 
 import (
@@ -174,6 +174,94 @@ func gen(args []string) {
 				continue
 			}
 			fmt.Fprintln(out, hx([]byte(mutate(r, toks))))
+		}
+	case "truncate":
+		// every token-prefix of every corpus statement (at most n statements, 0 = all)
+		data, err := os.ReadFile(*corpus)
+		if err != nil {
+			fmt.Fprintln(os.Stderr, err)
+			os.Exit(2)
+		}
+		lines := strings.Split(strings.TrimRight(string(data), "\n"), "\n")
+		for i, l := range lines {
+			if *n > 0 && i >= *n {
+				break
+			}
+			toks := tokenTexts([]byte(l))
+			for k := 1; k < len(toks); k++ {
+				fmt.Fprintln(out, hx([]byte(strings.Join(toks[:k], " "))))
+			}
+		}
+	case "repeat":
+		// super-linear probes: a comma-separated element of a corpus statement repeated many times
+		data, err := os.ReadFile(*corpus)
+		if err != nil {
+			fmt.Fprintln(os.Stderr, err)
+			os.Exit(2)
+		}
+		lines := strings.Split(strings.TrimRight(string(data), "\n"), "\n")
+		reps := []int{600, 3000}
+		for c := 0; c < *n; c++ {
+			l := lines[r.intn(len(lines))]
+			toks := tokenTexts([]byte(l))
+			var commas []int
+			for i, t := range toks {
+				if t == "," {
+					commas = append(commas, i)
+				}
+			}
+			if len(commas) == 0 {
+				continue
+			}
+			ci := commas[r.intn(len(commas))]
+			// the element after this comma, up to the next comma / closing bracket at depth 0
+			j := ci + 1
+			depth := 0
+			for j < len(toks) {
+				t := toks[j]
+				if t == "(" || t == "[" {
+					depth++
+				} else if t == ")" || t == "]" {
+					if depth == 0 {
+						break
+					}
+					depth--
+				} else if t == "," && depth == 0 {
+					break
+				}
+				j++
+			}
+			k := reps[c%len(reps)]
+			if c%2 == 0 {
+				// the element BEFORE the comma: back to the previous comma / opening bracket / clause keyword at depth 0
+				i0 := ci - 1
+				depth = 0
+				for i0 >= 0 {
+					t := toks[i0]
+					up := strings.ToUpper(t)
+					if t == ")" || t == "]" {
+						depth++
+					} else if t == "(" || t == "[" {
+						if depth == 0 {
+							break
+						}
+						depth--
+					} else if depth == 0 && (t == "," || up == "WITH" || up == "SELECT" || up == "BY" || up == "FROM" || up == "VALUES" || up == "SET" || up == "DISTINCT") {
+						break
+					}
+					i0--
+				}
+				if ci-i0 > 1 && ci-i0 <= 60 {
+					elem := strings.Join(toks[i0+1:ci+1], " ") // "element ,"
+					fmt.Fprintln(out, hx([]byte(strings.Join(toks[:i0+1], " ")+" "+strings.Repeat(elem+" ", k)+strings.Join(toks[i0+1:], " "))))
+					continue
+				}
+			}
+			if j <= ci+1 || j-ci > 60 {
+				continue
+			}
+			elem := strings.Join(toks[ci:j], " ") // ", element"
+			fmt.Fprintln(out, hx([]byte(strings.Join(toks[:j], " ")+" "+strings.Repeat(elem+" ", k)+strings.Join(toks[j:], " "))))
 		}
 	case "exhaustive":
 		// every sequence of up to n pool words behind every prefix (n <= 2 is quick: 18 * 170^2)
@@ -360,6 +448,7 @@ func run(args []string) {
 	fs := flag.NewFlagSet("run", flag.ExitOnError)
 	E := fs.Int64("E", 42, "E_main of the proved step bound")
 	B := fs.Int64("B", 305, "B of the proved step bound")
+	K := fs.Int64("K", 64, "empirical bound of the property: steps <= K*(tokens+16), K calibrated on the corpus (max observed 13.5) with a safety factor")
 	ex := fs.Bool("explain", false, "append the hex EXPLAIN text of accepted inputs")
 	fs.Parse(args)
 	in := bufio.NewScanner(os.Stdin)
@@ -377,6 +466,9 @@ func run(args []string) {
 			}
 		}
 		st, tk, steps, detail, expl := runOne(src, *E, *B, *ex)
+		if st != "BUDGET" && st != "PANIC" && steps > *K*(tk+16) {
+			st, detail = "SLOW", fmt.Sprintf("steps %d > %d*(tokens+16)", steps, *K)
+		}
 		if *ex {
 			fmt.Fprintf(out, "%s\t%d\t%d\t%s\t%s\n", st, tk, steps, detail, expl)
 		} else {
